@@ -316,6 +316,27 @@ def _pv(model, res, E):
     res.ob('R4', 'PV', 'omitted fv/type mean 0', ok)
     if not ok:
         res.violation('R4', 'function:PV:defaults', m.where(f), 'omitting fv and type must equal passing 0 for both', func=f.name)
+    # an empty argument in the middle (PV(r, n, pmt, , type): the grammar hands over a blank) is that argument's default, the later ones stay put
+    for label, blank, zero in (('fv left empty, type given', lambda: [Sym('float', 'r'), Sym('float', 'n'), Sym('float', 'pmt'), Const(None), Sym('float', 't')],
+                                lambda: [Sym('float', 'r'), Sym('float', 'n'), Sym('float', 'pmt'), Const(0), Sym('float', 't')]),
+                               ('fv given, type left empty', lambda: [Sym('float', 'r'), Sym('float', 'n'), Sym('float', 'pmt'), Sym('float', 'fv'), Const(None)],
+                                lambda: [Sym('float', 'r'), Sym('float', 'n'), Sym('float', 'pmt'), Sym('float', 'fv'), Const(0)])):
+        try:
+            a = sorted(PF.ratform(o.value).canon() for o in _runs(model, 'PV', blank) if o.kind == 'return' and o.value.tag != 'err' and not o.imprecise)
+            b = sorted(PF.ratform(o.value).canon() for o in _runs(model, 'PV', zero) if o.kind == 'return' and o.value.tag != 'err' and not o.imprecise)
+        except (Unmodelled, PF.NotPolynomial) as e:
+            res.ob('R4', 'PV', label, True, 'undecided: %s' % e)
+            continue
+        if not b:
+            res.ob('R4', 'PV', label, True, 'undecided: no value trace')
+            continue
+        ok = a == b
+        res.ob('R4', 'PV', label + ': the empty argument means 0 and the other keeps its place', ok)
+        if not ok:
+            res.violation('R4', 'function:PV:blank-argument', m.where(f),
+                          'PV with %s must equal PV with 0 in that place (the annuity equation is stated for the arguments in their positions); '
+                          'the value traces differ - a blank argument that is dropped shifts the later arguments one place to the left' % label,
+                          case=label, func=f.name)
 
 
 def _atan2(model, res, E):
